@@ -35,6 +35,31 @@ func valuelessOperand(script string) (found bool) {
 	if err != nil || prog == nil {
 		return false
 	}
+	// "y++" is parsed as the statement "y" followed by the statement "++": when what precedes the
+	// "++" is not that bare identifier (as in "x = y++"), the increment has no operand to consume
+	postfixAlone := func(stmts []ast.Statement) {
+		for i, st := range stmts {
+			es, ok := st.(*ast.ExpressionStatement)
+			if !ok {
+				continue
+			}
+			pf, ok := es.Expression.(*ast.PostfixExpression)
+			if !ok {
+				continue
+			}
+			good := false
+			if i > 0 {
+				if prev, ok := stmts[i-1].(*ast.ExpressionStatement); ok {
+					if id, ok := prev.Expression.(*ast.Identifier); ok && id.Value == pf.Token.Literal {
+						good = true
+					}
+				}
+			}
+			if !good {
+				found = true
+			}
+		}
+	}
 	var walk func(n ast.Node, needValue bool)
 	walk = func(n ast.Node, needValue bool) {
 		if n == nil || found {
@@ -46,6 +71,7 @@ func valuelessOperand(script string) (found bool) {
 		}
 		switch x := n.(type) {
 		case *ast.Program:
+			postfixAlone(x.Statements)
 			for _, s := range x.Statements {
 				walk(s, false)
 			}
@@ -53,6 +79,7 @@ func valuelessOperand(script string) (found bool) {
 			if x == nil {
 				return
 			}
+			postfixAlone(x.Statements)
 			for _, s := range x.Statements {
 				walk(s, false)
 			}
